@@ -15,6 +15,12 @@ from sim.sched import HarnessError, Violation
 VERIF = os.path.dirname(os.path.dirname(os.path.abspath(__file__)))
 ORDER_MODES = ("uniform", "uniform", "uniform", "sparse", "reverse", "insertion")
 WARN_FILTERS = ("always", "always", "default", "once", "ignore")
+WARN_FILTERS_AND_ERROR = WARN_FILTERS + ("error",)        # 'error' is an injected fault: see WarnedAsError
+
+
+class WarnedAsError(Exception):
+    """Under the warnings filter 'error' the call failed with the warning it would otherwise have emitted: an
+    accepted outcome of that injected fault (the call may fail; if it returns, the value must be right)."""
 
 _servers = {}
 
@@ -99,6 +105,10 @@ def call_bottleneck(sched, A, B, matching=False, mode="uniform", warn_filter="al
                 r = bott(A, B, matching=matching)
             except Violation:
                 raise
+            except Warning as e:
+                if warn_filter == "error":
+                    raise WarnedAsError(str(e))
+                raise Violation("no-exception", site, type(e).__name__, "bottleneck raised %s: %s" % (type(e).__name__, e))
             except Exception as e:
                 raise Violation("no-exception", site, type(e).__name__,
                                 "bottleneck raised %s: %s" % (type(e).__name__, e))
@@ -124,6 +134,10 @@ def call_wasserstein(A, B, matching=False, warn_filter="always", site="wasserste
         warnings.simplefilter(warn_filter)
         try:
             r = wass(A, B, matching=matching)
+        except Warning as e:
+            if warn_filter == "error":
+                raise WarnedAsError(str(e))
+            raise Violation("no-exception", site, type(e).__name__, "wasserstein raised %s: %s" % (type(e).__name__, e))
         except Exception as e:
             raise Violation("no-exception", site, type(e).__name__,
                             "wasserstein raised %s: %s" % (type(e).__name__, e))
